@@ -46,7 +46,7 @@ PROPS = {
     'C01': dict(traits=None, part='header', theorems=['DW.C01_applies_iff', 'DW.C01_unlisted_unconstrained', 'DW.C01_no_leak', 'DW.C01_merge_sound', 'DW.dedupGo_generics'],
                 enums=['bounds'], configs_quick=['default', 'safe', 'zod'], design='7/C01'),
     'C02': dict(traits=None, part='all', count=True, theorems=['DW.C02_impl_list', 'DW.C02_delegation_same_bounds', 'DW.implPreds_shortcut', 'DW.C18_effect', 'DW.C09_fieldwise'],
-                enums=None, configs_quick=['default', 'safe', 'zod'], design='7/C02'),
+                enums=None, configs_quick=['default', 'safe', 'zod'], diagnostics=True, design='7/C02'),
     'C03': dict(traits=['PartialEq'], theorems=['DW.C03_eq'], enums=['incomparable', 'skip'], design='7/C03'),
     'C04': dict(traits=['PartialOrd', 'Ord'], theorems=['DW.buildDiscriminants_spec', 'DW.C04_ord_refines', 'DW.C04_delegation', 'DW.C04_agree'],
                 enums=['discriminants', 'incomparable', 'skip'], configs_quick=['default', 'safe', 'nightly'], design='7/C04'),
@@ -74,13 +74,13 @@ PROPS = {
                 enums=['discriminants', 'incomparable'], configs_quick=ALL_CONFIGS, cross_config=True, design='7/C13'),
     'C14': dict(traits=None, part='all', theorems=['DW.C14_no_method_calls', 'DW.C14_core_paths_rooted', 'DW.C14_trait_path', 'DW.C14_crate_option', 'DW.C14_fn_paths_rooted',
                                                 'DW.C14_simple_distinct', 'DW.C14_field_vs_simple', 'DW.C14_self_vs_other', 'DW.C14_binders_fresh'],
-                enums=['debug', 'zeroize', 'names'], configs_quick=['default', 'zod'], stage1=True, design='7/C14'),
+                enums=['debug', 'zeroize', 'names'], configs_quick=['default', 'zod'], stage1=True, diagnostics=True, design='7/C14'),
     'C15': dict(traits=[], outcome='message', theorems=['DW.C15_incomparable_total', 'DW.C15_incomparable_needs_partial', 'DW.C15_incomparable_not_both',
                                                         'DW.C15_default_unique', 'DW.C15_default_needs_derive', 'DW.C15_union_traits',
                                                         'DW.C15_skip_group_derived', 'DW.C15_no_duplicate_trait', 'DW.C15_item_attr_shape'],
-                enums=['invalid', 'skip', 'default'], configs_quick=['default', 'zeroize'], design='7/C15'),
+                enums=['invalid', 'skip', 'default'], configs_quick=['default', 'zeroize'], diagnostics=True, design='7/C15'),
     'C16': dict(traits=[], outcome='message', theorems=['DW.C16_no_panic_stage2', 'DW.Input.fromInput_np', 'DW.genPanic_none', 'DW.C16_stage1_item_kept', 'DW.C16_stage1_forward'],
-                enums=['invalid', 'names'], stage1=True, malformed=0.6, configs_quick=['default', 'zeroize'], design='7/C16'),
+                enums=['invalid', 'names'], stage1=True, malformed=0.6, configs_quick=['default', 'zeroize'], diagnostics=True, design='7/C16'),
     'C17': dict(traits=['Eq', 'Clone'], theorems=['DW.C17_eq_obligations', 'DW.C17_union'], enums=['skip', 'bounds'], design='7/C17'),
     'C18': dict(traits=['Zeroize'], theorems=['DW.C18_effect'], enums=['zeroize', 'skip'], configs_quick=['zeroize', 'zod'],
                 configs_thorough=['zeroize', 'zod', 'safe-zod'], design='7/C18'),
